@@ -266,6 +266,11 @@ pub type Dump = Vec<(u8, Key, Vec<u8>)>;
 /// Dump all names by whole-name prefix query; also report whether results were strictly
 /// ascending and whether exact queries agree with the prefix results.
 pub fn dump_query<Q: aranya_runtime::Query>(q: &Q, probe_keys: &[Key]) -> Result<(Dump, bool), ()> {
+    dump_query_opt(q, probe_keys, true)
+}
+
+/// `deep` also cross-checks every row with an exact query and probes absent keys.
+pub fn dump_query_opt<Q: aranya_runtime::Query>(q: &Q, probe_keys: &[Key], deep: bool) -> Result<(Dump, bool), ()> {
     let mut out = Dump::new();
     let mut consistent = true;
     for (ni, name) in NAMES.iter().enumerate() {
@@ -281,14 +286,16 @@ pub fn dump_query<Q: aranya_runtime::Query>(q: &Q, probe_keys: &[Key]) -> Result
                 }
             }
             last = Some(k.clone());
-            let exact = q.query(name, &f.key).map_err(|_| ())?;
-            if exact.as_deref() != Some(&*f.value) {
-                consistent = false;
+            if deep {
+                let exact = q.query(name, &f.key).map_err(|_| ())?;
+                if exact.as_deref() != Some(&*f.value) {
+                    consistent = false;
+                }
+                seen.push(k.clone());
             }
-            seen.push(k.clone());
             out.push((ni as u8, k, f.value.to_vec()));
         }
-        for k in probe_keys {
+        for k in probe_keys.iter().filter(|_| deep) {
             if !seen.contains(k) && q.query(name, &to_keys(k)).map_err(|_| ())?.is_some() {
                 consistent = false;
             }
@@ -473,12 +480,13 @@ impl DagPolicy {
         place: Place,
     ) -> Result<(), PolicyError> {
         let wire: Option<Wire> = postcard::from_bytes(bytes).ok();
-        let (want, probe_keys) = {
+        let (want, deep, probe_keys) = {
             let mut l = self.log.borrow_mut();
-            (l.want_dump(), l.probe_keys.clone())
+            let w = l.want_dump();
+            (w, l.counter % 5 == 0, l.probe_keys.clone())
         };
         let (dump, dump_consistent) = if want {
-            match dump_query(&*facts, &probe_keys) {
+            match dump_query_opt(&*facts, &probe_keys, deep) {
                 Ok((d, c)) => (Some(d), c),
                 Err(()) => (None, true),
             }
